@@ -116,6 +116,22 @@ pub fn sample_in_ball(tau: usize, ct: &[u8]) -> (Poly, usize) {
     }
     (c, used)
 }
+/// Algorithm 29 with the longest run of rejected index bytes at one step (rarity measure for searches)
+pub fn sample_in_ball_run(tau: usize, ct: &[u8]) -> (Poly, usize, usize) {
+    let mut h = sha3::Shake256::default(); h.update(ct); let mut x = h.finalize_xof();
+    let mut s = [0u8; 8]; x.read(&mut s);
+    let (mut c, mut used, mut maxrun) = ([0i32; 256], 8usize, 0usize);
+    for i in (256 - tau)..256 {
+        let mut j = [0u8; 1]; x.read(&mut j); used += 1;
+        let mut run = 0usize;
+        while j[0] as usize > i { x.read(&mut j); used += 1; run += 1; }
+        maxrun = maxrun.max(run);
+        c[i] = c[j[0] as usize];
+        let idx = i + tau - 256;
+        c[j[0] as usize] = 1 - 2 * (((s[idx / 8] >> (idx % 8)) & 1) as i32);
+    }
+    (c, used, maxrun)
+}
 pub fn expand_mask_poly(gamma1: i32, rho: &[u8], n: u16) -> Poly {
     let c = if gamma1 == 1 << 17 { 18 } else { 20 };
     let mut h = sha3::Shake256::default(); h.update(rho); h.update(&n.to_le_bytes());
